@@ -1,4 +1,5 @@
 import Verif.Model.CssGrammar
+import Verif.Spec.CssGrammarSpec
 /-!
 # Lemmas about the grammar walk (C04B)
 
@@ -224,5 +225,90 @@ theorem commentBytes_bang (body : List Char) (h : 0 < body.length) :
     simp
   rw [t1, t2]
   simp
+
+/-! ## `@import url(…)`: the resource named is the same -/
+
+section ImportTarget
+open Verif.Spec.CssValue (TT lower dropEscNl urlContent trimWsChars)
+
+
+theorem isWs_eq : Verif.Spec.CssValue.isWs = Verif.Model.CssGrammar.isWs := by
+  funext c
+  simp [Verif.Spec.CssValue.isWs, Verif.Model.CssGrammar.isWs]
+
+theorem dropEscNl_noBs : ∀ l : List Char, l.contains '\\' = false → dropEscNl l = l
+  | [], _ => rfl
+  | c :: r, h => by
+    have hc : c ≠ '\\' := by intro e; subst e; simp at h
+    have hr : r.contains '\\' = false := by
+      simp only [List.contains_cons, Bool.or_eq_false_iff] at h; exact h.2
+    have ih := dropEscNl_noBs r hr
+    unfold dropEscNl
+    split <;> simp_all
+
+/-- trimmed content between the parentheses of a `url(…)` lexeme -/
+def urlCore (url : List Char) : List Char :=
+  ((((url.drop 4).dropLast).dropWhile Verif.Model.CssGrammar.isWs).reverse.dropWhile Verif.Model.CssGrammar.isWs).reverse
+
+
+
+def isQuote (c : Char) : Bool := c == '"' || c == '\''
+
+/-- guards of `import_target_ok` -/
+def importGuard (url : List Char) : Bool :=
+  -- exactly one closing parenthesis ends the lexeme
+  ((url.drop 4).reverse.dropWhile (· == ')')).reverse == (url.drop 4).dropLast &&
+  -- an unquoted URL has no backslash (escapes mean the same in a string, except an escaped newline)
+  ((match urlCore url with
+    | q :: x :: r => isQuote q && (x :: r).getLast? == some q
+    | _ => false) || !(urlCore url).contains '\\') &&
+  -- not a data: URI (C18)
+  !(lower ((dropEscNl (((importURL url).drop 1).dropLast)).take 5) == "data:".toList)
+
+theorem import_target (url : List Char) (h : importGuard url = true) :
+    importTarget (.mk .string (importURL url) []) = importTarget (.mk .url url []) := by
+  simp only [importGuard, Bool.and_eq_true, beq_iff_eq, Bool.or_eq_true, Bool.not_eq_true'] at h
+  obtain ⟨⟨h1, h2⟩, h3⟩ := h
+  have hcore : trimWsChars (((url.drop 4).reverse.dropWhile (· == ')')).reverse) = urlCore url := by
+    rw [h1]; unfold trimWsChars urlCore; rw [isWs_eq]
+  simp only [importTarget, Tok.tt, Tok.data, show (TT.string == TT.url) = false from rfl, Bool.false_eq_true, if_false,
+    beq_self_eq_true, if_true, urlContent, hcore]
+  have hm : importURL url = (match urlCore url with
+      | q :: x :: r => if isQuote q && (q :: x :: r).getLast? == some q then urlCore url else '"' :: urlCore url ++ ['"']
+      | _ => '"' :: urlCore url ++ ['"']) := by
+    unfold importURL urlCore isQuote
+    simp only
+    split <;> simp_all
+  rw [hm] at h3 ⊢
+  rcases hc : urlCore url with _ | ⟨q, _ | ⟨x, r⟩⟩
+  · simp [dropEscNl, lower]
+  · simp only [hc] at h2 h3 ⊢
+    simp only [Bool.false_eq_true, false_or] at h2
+    have : dropEscNl [q] = [q] := dropEscNl_noBs _ h2
+    simp_all
+  · simp only [hc] at h2 h3 ⊢
+    by_cases hq : (isQuote q && (x :: r).getLast? == some q) = true
+    · have hq' : (isQuote q && (q :: x :: r).getLast? == some q) = true := by simpa using hq
+      have hq2 : ((q == '"' || q == '\'') && (x :: r).getLast? == some q) = true := by simpa [isQuote] using hq
+      simp only [hq', if_true, hq2] at h3 ⊢
+      simp only [List.drop_succ_cons, List.drop_zero] at h3 ⊢
+      have e : (x :: r).dropLast = ((x :: r)).dropLast := rfl
+      simp_all
+    · have hq' : (isQuote q && (q :: x :: r).getLast? == some q) = false := by simpa using hq
+      have hq2 : ((q == '"' || q == '\'') && (x :: r).getLast? == some q) = false := by simpa [isQuote] using hq
+      have hnb : (q :: x :: r).contains '\\' = false := by
+        rcases h2 with h2 | h2
+        · exact absurd h2 hq
+        · exact h2
+      have hd := dropEscNl_noBs _ hnb
+      have hdl : (q :: x :: (r ++ ['"'])).dropLast = q :: x :: r := by
+        rw [← List.cons_append, ← List.cons_append, List.dropLast_concat]
+      simp only [hq', Bool.false_eq_true, if_false, hq2] at h3 ⊢
+      simp only [List.cons_append, List.drop_succ_cons, List.drop_zero, hdl, hd] at h3 ⊢
+      rw [h3]
+      simp
+
+
+end ImportTarget
 
 end Verif.Proofs.CssGrammar
